@@ -60,6 +60,17 @@ pub fn call(fnname: &str, args: &[&str], touched: &mut Vec<String>) -> Option<St
         ("trim_prefix", 2) => { let (a, b) = (s(0)?, s(1)?); guarded(|| format!("ok {}", show_path(&sys::trim_prefix(&a, &b)))) },
         ("trim_suffix", 2) => { let (a, b) = (s(0)?, s(1)?); guarded(|| format!("ok {}", show_path(&sys::trim_suffix(&a, &b)))) },
         ("relative", 2) => { let (a, b) = (s(0)?, s(1)?); guarded(|| show_res(sys::relative(&a, &b), |x| show_path(x))) },
+        // relnav x<p> x<b>: relative(p, b) and where it navigates to: clean(b.join(relative))
+        ("relnav", 2) => {
+            let (a, b) = (s(0)?, s(1)?);
+            guarded(|| match sys::relative(&a, &b) {
+                Ok(r) => {
+                    let nav = sys::clean(Path::new(&b).join(&r));
+                    format!("ok l:{},{}", hex(r.to_string_lossy().as_bytes()), hex(nav.to_string_lossy().as_bytes()))
+                },
+                Err(e) => format!("err {}", err_kind(&e)),
+            })
+        },
         // expand x<path> e<env>
         ("expand", 2) => {
             let a = s(0)?;
